@@ -87,6 +87,255 @@ def unmask(word: bytes, mask: bytes) -> bytes:
 
 
 # ------------------------------------------------------------------------------------------------
+# structured (algebraic) inputs: code words with prescribed symbols, built with the arithmetic above only
+def gf_inv(a: int) -> int:
+    return gf_pow(a, 254)
+
+
+def poly_mul(a, b):
+    """product of two polynomials over GF(2^8), highest degree first"""
+    r = [0] * (len(a) + len(b) - 1)
+    for i, x in enumerate(a):
+        if x:
+            for j, y in enumerate(b):
+                r[i + j] ^= gf_mul(x, y)
+    return r
+
+
+def _gen_rows():
+    rows = []
+    for j in range(9):
+        e = bytearray(9)
+        e[j] = 1
+        rows.append(list(bytes(e) + ref_parity(bytes(e))))
+    return rows
+
+
+GEN_ROWS = _gen_rows()  # systematic generator matrix (9 x 12) of the code, zero mask
+
+
+def solve_gf(A, b):
+    """Gauss-Jordan over GF(2^8); None if singular"""
+    n = len(A)
+    M = [list(r) + [v] for r, v in zip(A, b)]
+    for c in range(n):
+        p = next((r for r in range(c, n) if M[r][c]), None)
+        if p is None:
+            return None
+        M[c], M[p] = M[p], M[c]
+        inv = gf_inv(M[c][c])
+        M[c] = [gf_mul(inv, x) for x in M[c]]
+        for r in range(n):
+            if r != c and M[r][c]:
+                f = M[r][c]
+                M[r] = [x ^ gf_mul(f, y) for x, y in zip(M[r], M[c])]
+    return [M[r][n] for r in range(n)]
+
+
+def solve_codeword(eqs):
+    """The code word w (12 octets, zero mask) satisfying nine linear equations  xor_p coef[p]*w[p] = rhs  given as
+    (dict position -> coefficient, rhs); None if the equations do not determine it.  `fix`/`tie` below build the
+    two usual kinds.  Any nine *positions* may be prescribed (the code is MDS), ties may be singular."""
+    A = [[0] * 9 for _ in eqs]
+    for r, (coef, _) in enumerate(eqs):
+        for j in range(9):
+            acc = 0
+            for p, c in coef.items():
+                acc ^= gf_mul(c, GEN_ROWS[j][p])
+            A[r][j] = acc
+    d = solve_gf(A, [rhs for _, rhs in eqs])
+    if d is None:
+        return None
+    w = bytes(d) + ref_parity(bytes(d))
+    ok = not any(syndromes(w))
+    for coef, rhs in eqs:
+        acc = 0
+        for p, c in coef.items():
+            acc ^= gf_mul(c, w[p])
+        ok = ok and acc == rhs
+    if not ok:
+        raise RuntimeError("harness arithmetic broken (solve_codeword)")
+    return w
+
+
+def fix(p, v):
+    return ({p: 1}, v)
+
+
+def tie(p, q, v=0):
+    """w[p] ^ w[q] = v"""
+    return ({p: 1, q: 1}, v)
+
+
+def algebraic_msgs(rng, std, thorough, scale=1):
+    """(message, mask, origin): messages whose parity / LFSR register is prescribed.  `std` = the three masks
+    VoiceLCHeader, TerminatorWithLC, zero.  Random messages reach any of these classes with probability 2^-24."""
+    out = []
+    ff = b"\xff\xff\xff"
+
+    def some_masks(k):
+        pool = list(std) + [ff, bytes(rng.randrange(256) for _ in range(3))]
+        return pool if thorough else rng.sample(pool, k)
+
+    # (a) kernel of the parity map: the message is q(x) g(x), deg q <= 5  =>  parity 00 00 00, the FEC field is the bare mask
+    qs = []
+    for k in range(6):
+        for v in ({1, 255, rng.randrange(1, 256)} if thorough else {1, rng.randrange(2, 256)}):
+            q = [0] * 6
+            q[k] = v
+            qs.append(q)  # message of weight 4 (a minimum-weight word of the kernel)
+    for _ in range((40 if thorough else 10) * scale):
+        q = [rng.randrange(256) for _ in range(6)]
+        z = rng.randrange(4)
+        if z == 1:
+            n0 = rng.randrange(1, 5)
+            q[:n0] = [0] * n0  # low degree
+        elif z == 2:
+            q = [rng.choice((0, 0, 1, 255, rng.randrange(256))) for _ in range(6)]
+        if not any(q):
+            q[rng.randrange(6)] = 1
+        qs.append(q)
+    qs += [[1] * 6, [255] * 6, [0, 0, 0, 0, 0, 1], [1, 0, 0, 0, 0, 0]]
+    for q in qs:
+        d = bytes(poly_mul(q, GENPOLY))
+        if len(d) != 9 or any(ref_parity(d)):
+            raise RuntimeError("harness arithmetic broken (q*g)")
+        for m in some_masks(3):
+            out.append((d, m, "alg:zero-parity(q*g)"))
+
+    # (b) parity hits a prescribed target / is tied to message octets; 6 message octets free, 3 solved
+    def target_eqs(kind, m):
+        o = [m2 for m2 in std if m2 != m]
+        v = rng.randrange(1, 256)
+        if kind == "parity=000000":
+            return [fix(9 + i, 0) for i in range(3)]
+        if kind == "parity=ffffff":
+            return [fix(9 + i, 255) for i in range(3)]
+        if kind == "fec=000000":  # parity equals the mask: the transmitted FEC field is 00 00 00
+            return [fix(9 + i, m[i]) for i in range(3)]
+        if kind == "fec=ffffff":
+            return [fix(9 + i, m[i] ^ 255) for i in range(3)]
+        if kind == "fec=other-mask":  # the transmitted FEC field looks like the bare mask of another data type
+            return [fix(9 + i, m[i] ^ o[0][i]) for i in range(3)]
+        if kind == "parity=other-mask":
+            return [fix(9 + i, o[-1][i]) for i in range(3)]
+        if kind == "parity=vvvvvv":
+            return [fix(9 + i, v) for i in range(3)]
+        if kind == "parity=00vv00":
+            return [fix(9, 0), fix(10, v), fix(11, 0)]
+        if kind == "parity=msg[0:3]":
+            return [tie(9 + i, i) for i in range(3)]
+        if kind == "parity=msg[6:9]":
+            return [tie(9 + i, 6 + i) for i in range(3)]
+        if kind == "parity=reversed(msg[6:9])":
+            return [tie(9 + i, 8 - i) for i in range(3)]
+        if kind == "fec=msg[0:3]":
+            return [tie(9 + i, i, m[i]) for i in range(3)]
+        if kind == "fec=msg[3:6]":
+            return [tie(9 + i, 3 + i, m[i]) for i in range(3)]
+        raise KeyError(kind)
+
+    kinds = ["parity=000000", "parity=ffffff", "fec=000000", "fec=ffffff", "fec=other-mask", "parity=other-mask",
+             "parity=vvvvvv", "parity=00vv00", "parity=msg[0:3]", "parity=msg[6:9]", "parity=reversed(msg[6:9])",
+             "fec=msg[0:3]", "fec=msg[3:6]"]
+    for kind in kinds:
+        for m in some_masks(3):
+            for _ in range((4 if thorough else 2) * scale):
+                for _attempt in range(8):
+                    free = rng.sample(range(9), 6)
+                    style = rng.randrange(4)
+                    vals = [(0 if style == 1 else 255 if style == 2 else rng.randrange(256)) for _ in free]
+                    if style == 3:
+                        vals = [rng.choice((0, 0, rng.randrange(256))) for _ in free]
+                    w = solve_codeword([fix(p, x) for p, x in zip(free, vals)] + target_eqs(kind, m))
+                    if w is not None and any(w[:9]):
+                        out.append((w[:9], m, "alg:" + kind))
+                        break
+
+    # (c) minimum-weight code words (weight 4) on a prescribed support: 8 zeros and one non-zero octet prescribed
+    supports = list(itertools.combinations(range(12), 4))
+    if not thorough:
+        supports = rng.sample(supports, 40 * scale if 40 * scale < len(supports) else len(supports))
+    for S in supports:
+        p0 = rng.choice(S)
+        w = solve_codeword([fix(p, 0) for p in range(12) if p not in S] + [fix(p0, rng.choice((1, 255, rng.randrange(1, 256))))])
+        if w is None or sum(1 for x in w if x) != 4:
+            raise RuntimeError("harness arithmetic broken (weight-4 word)")
+        out.append((w[:9], rng.choice(std), "alg:weight4-codeword"))
+
+    # (d) the LFSR register takes a prescribed value after i message octets (the prefix alone has that remainder)
+    for i in range(3, 9):
+        v = rng.randrange(1, 256)
+        for t in ([0, 0, 0], [255, 255, 255], [0, v, v], [v, 0, v], [v, v, 0], [0, 0, v], [v, 0, 0], [v, v, v]):
+            if i == 3 and not any(t):
+                continue  # only the zero prefix
+            for _ in range((3 if thorough else 1) * scale):
+                eqs = [fix(p, 0) for p in range(9 - i)] + [fix(9 + k, t[k]) for k in range(3)]
+                eqs += [fix(9 - i + k, rng.randrange(256)) for k in range(i - 3)]
+                w = solve_codeword(eqs)
+                if w is None:
+                    raise RuntimeError("harness arithmetic broken (register target)")
+                prefix = w[9 - i: 9]
+                if ref_parity(prefix) != bytes(t):
+                    raise RuntimeError("harness arithmetic broken (register target)")
+                style = rng.randrange(3)
+                tail = bytes((0 if style == 0 else 255 if style == 1 else rng.randrange(256)) for _ in range(9 - i))
+                if any(prefix + tail):
+                    out.append((prefix + tail, rng.choice(list(std) + [ff]), "alg:register-target"))
+    return out
+
+
+def structured_words(rng, std, n):
+    """(word, mask, label): received words that look special; the verdict always comes from the syndromes"""
+    out = []
+    for _ in range(n):
+        m = rng.choice(list(std) + [bytes(rng.randrange(256) for _ in range(3))])
+        d = bytes(rng.randrange(256) for _ in range(9))
+        p = xor_b(ref_parity(d), m)
+        k = rng.randrange(12)
+        if k == 0:
+            w, lab = d + m, "bare-mask-fec"  # parity never computed
+        elif k == 1:
+            w, lab = d + bytes(3), "zero-fec"
+        elif k == 2:
+            w, lab = d + b"\xff\xff\xff", "ff-fec"
+        elif k == 3:
+            w, lab = d + d[:3], "fec=msg[0:3]"
+        elif k == 4:
+            w, lab = d + p[::-1], "fec-reversed"
+        elif k == 5:
+            w, lab = d + p[1:] + p[:1], "fec-rotated"
+        elif k == 6:
+            w, lab = d + ref_parity(d), "fec-unmasked"
+        elif k == 7:
+            w, lab = d + xor_b(ref_parity(d[::-1]), m), "fec-of-reversed-message"
+        elif k == 8:
+            v = rng.randrange(256)
+            w, lab = bytes([v] * 12), "all-octets-equal"
+        elif k == 9:
+            a, b = rng.randrange(256), rng.randrange(256)
+            w, lab = bytes([a, b] * 6), "alternating"
+        elif k == 10:
+            s, t = rng.randrange(256), rng.choice((1, 255, 17))
+            w, lab = bytes((s + t * i) & 255 for i in range(12)), "arithmetic-progression"
+        else:
+            # a weight-4 code word with one to three of its non-zero octets cleared / one changed, under the mask
+            S = rng.sample(range(12), 4)
+            cw = solve_codeword([fix(q, 0) for q in range(12) if q not in S] + [fix(S[0], rng.randrange(1, 256))])
+            e = bytearray(cw)
+            how = rng.randrange(4)
+            if how < 3:
+                for q in S[: how + 1]:
+                    e[q] = 0
+                lab = f"weight4-codeword-minus-{how + 1}"
+            else:
+                lab = "weight4-codeword"
+            w = bytes(e[:9]) + xor_b(bytes(e[9:]), m)
+        out.append((w, m, lab))
+    return out
+
+
+# ------------------------------------------------------------------------------------------------
 def rs():
     from okdmr.dmrlib.etsi.fec.reed_solomon_12_9_4 import ReedSolomon1294
 
@@ -208,6 +457,248 @@ def eval_scale(R, a: bytes, s: int):
 
 
 # ------------------------------------------------------------------------------------------------
+# histories: the property speaks of a function of (message, mask) / (word, mask).  A script is a list of steps
+#   {"op": "generate", "data": hex | {"ref": name}, "dtype": T, "mask": hex | None | {"ref": name}, "mtype": T, "call": "pos"|"kw", "as": name}
+#   {"op": "check",    "word": hex | {"ref": name}, "wtype": T, "mask": hex | {"ref": name}, "mtype": T, "call": ..., "as": name}
+#   {"op": "mutate",   "target": name, "xor": {position: value}}
+# generate binds `name` to the returned object and `name.data` / `name.mask` to the argument objects, check binds
+# `name.word` / `name.mask`.  mutate edits the named object in place when it is mutable (bytearray, list) and
+# replaces it by an edited copy otherwise.  Every answer is compared with the reference (long division / syndromes
+# of the *current* contents), and after every step every object the caller holds must still have the contents the
+# caller gave it: nothing the library returned or was given may change behind the caller's back.
+ARG_TYPES = {
+    "bytes": bytes,
+    "bytearray": bytearray,
+    "list": list,
+    "tuple": tuple,
+    "memoryview": lambda b: memoryview(bytes(b)),
+}
+OCTET_STRINGS = ("bytes", "bytearray")  # the property's octet strings; the other types only "where accepted"
+
+
+def obj_value(o):
+    if isinstance(o, (bytes, bytearray, memoryview, list, tuple)):
+        try:
+            return bytes(o)
+        except Exception:  # noqa
+            return None
+    return None
+
+
+def apply_xor(b: bytes, x) -> bytes:
+    r = bytearray(b)
+    for p, v in x.items():
+        r[int(p)] ^= int(v)
+    return bytes(r)
+
+
+def run_script(R, steps):
+    """-> {"fail": None | (what, expected, actual), "pairs": [(component, line, impl_out)], "calls": n, "skipped": n}"""
+    objs, want, tname = {}, {}, {}
+    res = {"fail": None, "pairs": [], "calls": 0, "skipped": 0}
+
+    def arg(spec, tn, name):
+        if isinstance(spec, dict):
+            n = spec["ref"]
+            return (objs.get(n), tname.get(n, "?"))
+        o = ARG_TYPES[tn](bytes.fromhex(spec))
+        objs[name], want[name], tname[name] = o, bytes.fromhex(spec), tn
+        return (o, tn)
+
+    for idx, st in enumerate(steps):
+        op = st["op"]
+        name = st.get("as") or f"_{idx}"
+        if op == "mutate":
+            t = st["target"]
+            o = objs.get(t)
+            if o is None:
+                continue
+            new = apply_xor(want[t], st["xor"])
+            if isinstance(o, (bytearray, list)):
+                for p, v in st["xor"].items():
+                    o[int(p)] ^= int(v)
+            elif isinstance(o, tuple):
+                objs[t] = tuple(new)
+            elif isinstance(o, memoryview):
+                objs[t] = memoryview(new)
+            else:
+                objs[t] = new
+            want[t] = new
+        elif op in ("generate", "check"):
+            first = "data" if op == "generate" else "word"
+            a1, t1 = arg(st[first], st.get("dtype" if op == "generate" else "wtype", "bytes"), f"{name}.{first}")
+            nomask = st.get("mask") is None
+            a2, t2 = (None, "bytes") if nomask else arg(st["mask"], st.get("mtype", "bytes"), f"{name}.mask")
+            if a1 is None or (a2 is None and not nomask):
+                continue  # refers to an object an earlier (skipped) step did not produce
+            v1 = obj_value(a1)
+            v2 = bytes(3) if nomask else obj_value(a2)
+            fn = R.generate if op == "generate" else R.check
+            res["calls"] += 1
+            r = None
+            if st.get("call") == "kw":  # parameter names are not part of the property: fall back to positional
+                r = call(lambda: fn(data=a1)) if nomask else call(lambda: fn(data=a1, mask=a2))
+                if r == "ERR TypeError":
+                    r = None
+            if r is None:
+                r = call(fn, a1) if nomask else call(fn, a1, a2)
+            in_domain = t1 in OCTET_STRINGS and t2 in OCTET_STRINGS
+            desc = f"step {idx}: {op}({t1} {hex_str(v1)}, {'default mask' if nomask else t2 + ' ' + hex_str(v2)})"
+            if isinstance(r, str):
+                if in_domain:
+                    res["fail"] = (f"{desc} raises", "an answer", r)
+                    return res
+                res["skipped"] += 1
+                continue
+            if op == "generate":
+                exp = v1 + xor_b(ref_parity(v1), v2)
+                got = obj_value(r)
+                res["pairs"].append(("generate", f"rs.gen {hex_str(v1)} {hex_str(v2)}", out_gen(r) if got is not None else f"ERR not-octets {type(r).__name__}"))
+                if got != exp:
+                    res["fail"] = (f"{desc} does not return the message followed by the parity of the long division by g (xor mask)", hex_str(exp), hex_str(got) if got is not None else type(r).__name__)
+                    return res
+                objs[name], want[name], tname[name] = r, exp, type(r).__name__
+            else:
+                exp = not any(syndromes(unmask(v1, v2)))
+                res["pairs"].append(("check", f"rs.check {hex_str(v1)} {hex_str(v2)}", out_chk(r)))
+                if r is not exp:
+                    res["fail"] = (f"{desc} disagrees with 'all three syndromes of the unmasked word are zero'", exp, out_chk(r))
+                    return res
+        else:
+            raise KeyError(op)
+        for n, o in objs.items():
+            if obj_value(o) != want[n]:
+                got = obj_value(o)
+                res["fail"] = (f"after step {idx} ({op}) the object `{n}` held by the caller no longer has the contents the caller gave it / received", hex_str(want[n]), hex_str(got) if got is not None else type(o).__name__)
+                return res
+    return res
+
+
+def make_scripts(rng, std, n, pool):
+    """n short histories from six templates; pool = structured messages to mix with corpus / random ones"""
+    scripts = []
+
+    def rmsg():
+        r = rng.random()
+        if r < 0.2:
+            return bytes.fromhex(rng.choice(CORPUS)[0])[:9]
+        if r < 0.45 and pool:
+            return rng.choice(pool)
+        return bytes(rng.randrange(256) for _ in range(9))
+
+    def rmask():
+        return rng.choice(std) if rng.random() < 0.85 else bytes(rng.randrange(256) for _ in range(3))
+
+    def rxor(where=None):
+        where = where or rng.choice(("parity", "parity", "data", "any"))
+        k = rng.randrange(1, 4)
+        pos = rng.sample({"parity": range(9, 12), "data": range(9), "any": range(12)}[where], k)
+        return {str(p): rng.randrange(1, 256) for p in pos}
+
+    def mt():
+        return rng.choice(("bytes", "bytes", "bytearray", "list", "tuple", "memoryview"))
+
+    def dt():
+        return rng.choice(("bytes", "bytearray", "bytearray"))
+
+    def cs():
+        return rng.choice(("pos", "pos", "kw"))
+
+    def G(d, dtype, m, mtype, name):
+        if isinstance(m, bytes) and not any(m) and rng.random() < 0.3:
+            m = None  # default mask argument
+        return {"op": "generate", "data": d if isinstance(d, dict) else hex_str(d), "dtype": dtype,
+                "mask": m if (m is None or isinstance(m, dict)) else hex_str(m), "mtype": mtype, "call": cs(), "as": name}
+
+    def C(w, wtype, m, mtype, name=None):
+        st = {"op": "check", "word": w if isinstance(w, dict) else hex_str(w), "wtype": wtype,
+              "mask": m if isinstance(m, dict) else hex_str(m), "mtype": mtype, "call": cs()}
+        if name:
+            st["as"] = name
+        return st
+
+    def MUT(t, x):
+        return {"op": "mutate", "target": t, "xor": x}
+
+    def R_(nm):
+        return {"ref": nm}
+
+    for i in range(n):
+        d, m = rmsg(), rmask()
+        word = d + xor_b(ref_parity(d), m)
+        t = i % 6
+        if t == 0:  # edit the returned word in place, ask again
+            x = rxor()
+            bad = apply_xor(word, x)
+            s = [G(d, dt(), m, mt(), "a"), MUT("a", x), C(R_("a"), "-", m, mt()), C(bad, "bytes", m, "bytes"),
+                 G(d, "bytes", m, "bytes", "b"), C(word, dt(), m, mt()), G(d, "bytearray", m, mt(), "c")]
+            if rng.random() < 0.6:
+                s += [MUT("c", rxor()), C(R_("c"), "-", m, "bytes"), G(d, dt(), m, mt(), "e"), C(R_("b"), "-", m, mt()), C(R_("e"), "-", m, mt())]
+            lab = "mutate-result"
+        elif t == 1:  # the caller reuses its own buffers after the call
+            x1 = {str(rng.randrange(9)): rng.randrange(1, 256)}
+            xm = {str(rng.randrange(3)): rng.randrange(1, 256)}
+            s = [G(d, "bytearray", m, rng.choice(("bytearray", "list")), "a"), MUT("a.data", x1),
+                 G(R_("a.data"), "-", R_("a.mask"), "-", "b"), G(d, dt(), m, mt(), "c"), MUT("a.mask", xm),
+                 G(d, dt(), R_("a.mask"), "-", "e"), G(R_("a.data"), "-", m, mt(), "f"), C(R_("a"), "-", m, mt()),
+                 C(R_("b"), "-", R_("a.mask"), "-"), C(R_("e"), "-", R_("a.mask"), "-")]
+            lab = "mutate-argument"
+        elif t == 2:  # one word buffer, contents edited between checks
+            x = rxor("any")
+            w0 = word if rng.random() < 0.5 else apply_xor(word, x)
+            s = [C(w0, "bytearray", m, rng.choice(("bytearray", "list", "bytes")), "w"), MUT("w.word", x), C(R_("w.word"), "-", R_("w.mask"), "-"),
+                 MUT("w.word", x), C(R_("w.word"), "-", R_("w.mask"), "-"),
+                 MUT("w.mask", {str(rng.randrange(3)): rng.randrange(1, 256)}), C(R_("w.word"), "-", R_("w.mask"), "-"),
+                 C(w0, "bytes", m, "bytes"), G(d, dt(), m, mt(), "g")]
+            lab = "same-buffer-check"
+        elif t == 3:  # related requests, all answers held
+            rel = [(d, m)]
+            rel += [(d, m2) for m2 in std if m2 != m]
+            d2 = bytearray(d); d2[8] ^= rng.randrange(1, 256)
+            d3 = bytearray(d); d3[0] ^= rng.randrange(1, 256)
+            d4 = bytes(d[:8]) + bytes([d[8] ^ 0x80])
+            rel += [(bytes(d2), m), (bytes(d3), m), (d4, m), (bytes(x ^ 255 for x in d), m), (d[::-1], m), (d, bytes(3)), (d, m[::-1])]
+            rng.shuffle(rel)
+            s = [G(dd, dt(), mm, mt(), f"r{j}") for j, (dd, mm) in enumerate(rel)]
+            s += [G(d, dt(), m, mt(), "again"), C(word, dt(), m, mt())]
+            lab = "related-held"
+        elif t == 4:  # check and generate interleaved on one message
+            bad1, bad2 = apply_xor(word, rxor("parity")), apply_xor(word, rxor("parity"))
+            m2 = rng.choice([q for q in std if q != m])
+            s = [C(bad1, dt(), m, mt()), G(d, dt(), m, mt(), "a"), C(word, dt(), m, mt()), C(bad2, dt(), m, mt()), C(word, dt(), m, mt()),
+                 G(d, dt(), m2, mt(), "b"), C(word, dt(), m2, mt()), C(R_("b"), "-", m2, mt()), C(R_("b"), "-", m, mt()), C(R_("a"), "-", m, mt())]
+            lab = "check-generate-interleaved"
+        else:  # argument types / call styles only
+            w = rng.choice((word, apply_xor(word, rxor("any"))))
+            s = [G(d, rng.choice(list(ARG_TYPES)), m, rng.choice(list(ARG_TYPES)), "a"), C(w, rng.choice(list(ARG_TYPES)), m, rng.choice(list(ARG_TYPES))),
+                 G(d, dt(), m, mt(), "b"), C(w, dt(), m, mt())]
+            lab = "argument-types"
+        scripts.append((lab, s))
+    return scripts
+
+
+def long_script(rng, std, n):
+    """n results held at once (n distinct messages), a fifth of them edited in place, then everything asked again"""
+    ds = []
+    for j in range(n):
+        d = bytearray(rng.randrange(256) for _ in range(9))
+        if j and rng.random() < 0.3:
+            d = bytearray(ds[rng.randrange(j)][0])
+            d[rng.randrange(9)] ^= rng.randrange(1, 256)
+        ds.append((bytes(d), rng.choice(std)))
+    ds = list(dict.fromkeys(ds))
+    s = [{"op": "generate", "data": hex_str(d), "dtype": rng.choice(("bytes", "bytearray", "bytearray")), "mask": hex_str(m),
+          "mtype": rng.choice(("bytes", "bytearray")), "call": "pos", "as": f"h{j}"} for j, (d, m) in enumerate(ds)]
+    for j in rng.sample(range(len(ds)), max(1, len(ds) // 5)):
+        k = rng.randrange(1, 4)
+        s.append({"op": "mutate", "target": f"h{j}", "xor": {str(p): rng.randrange(1, 256) for p in rng.sample(range(9, 12), k)}})
+    for j, (d, m) in enumerate(ds):
+        s.append({"op": "generate", "data": hex_str(d), "dtype": rng.choice(("bytes", "bytearray")), "mask": hex_str(m), "mtype": "bytes", "call": "pos", "as": f"k{j}"})
+        s.append({"op": "check", "word": {"ref": f"h{j}"}, "wtype": "-", "mask": hex_str(m), "mtype": "bytes", "call": "pos"})
+    return s
+
+
+# ------------------------------------------------------------------------------------------------
 def rand_error(rng, weight=None, positions=None):
     pos = positions if positions is not None else rng.sample(range(12), weight)
     e = [0] * 12
@@ -233,7 +724,16 @@ def run(ctx):
         "per generated word: every single position with a seeded value, seeded 2- and 3-symbol errors (in thorough every "
         "position pair/triple on sampled words and all 12x255 single errors), errors confined to parity, the other masks; "
         "random 12-octet words and words at distance 4 (xor of two code words) through check against independently computed "
-        "syndromes; additivity and GF(256)-homogeneity of generate. Out-of-domain inputs (other lengths, operands >= 256) are "
+        "syndromes; additivity and GF(256)-homogeneity of generate. Structured algebraic inputs, solved with the harness's own "
+        "GF(2^8) linear algebra (any nine symbols of a code word may be prescribed): messages q(x)g(x) (zero parity, FEC field = bare mask), "
+        "messages whose parity / transmitted FEC field hits 000000, ffffff, the mask, another mask, a constant, or equals message octets, "
+        "minimum-weight (4) code words on prescribed supports, messages whose LFSR register takes a prescribed value (zero, ff, zero components) "
+        "after i octets; received words that only look like these (bare mask / constants / message octets in the FEC field, permuted parity, "
+        "patterns, weight-4 code words with octets cleared). Histories (scripts of generate / check / edit-in-place steps, six templates plus one "
+        "session holding >= 160 results): arguments as bytes / bytearray (list, tuple, memoryview where the code accepts them), positional / "
+        "keyword / default-mask calls, the returned word edited in place in 1..3 octets and asked again, the caller's own argument buffers edited "
+        "after the call, one buffer checked with changing contents, related requests (same message other mask, same prefix, one octet changed) all "
+        "held; every answer is compared with the reference and after every step every object the caller holds must be unchanged. Out-of-domain inputs (other lengths, operands >= 256) are "
         "compared with the model as a note only. A case is non-trivial unless message and mask are all-zero (a product: unless an operand is 0); "
         "distinct = distinct (operation, operands)."
     )
@@ -245,7 +745,9 @@ def run(ctx):
         "harness-side independent GF(2^8) arithmetic (shift-and-add) used by the oracle",
     ]
     ctx.assumptions += [
-        "messages, masks and received words are Python bytes (every element an octet); the theorems carry this as the hypothesis isBytes",
+        "messages, masks and received words are Python octet strings (bytes or bytearray; every element an octet); the theorems carry this as the hypothesis isBytes; "
+        "the model is a function of the octet values, so the Python type, the call style and the call history are canonicalised away: the history runs tie this to the code. "
+        "Masks given as list / tuple / memoryview are checked for their answers where the code accepts them; an exception for such a type gives no verdict",
         "the mask has 3 octets (the two masks the standard defines, the default, or any other 3 octets)",
     ]
 
@@ -331,6 +833,10 @@ def run(ctx):
         else:
             m = bytes(rng.randrange(256) for _ in range(3))
         msgs.append((d, m, "random"))
+    # structured algebraic messages: kernel and prescribed targets of the parity map, minimum-weight code words,
+    # prescribed LFSR register mid-way (each class has probability 2^-24 .. 2^-8 under random sampling)
+    alg = algebraic_msgs(rng, [m for _, m in masks] + [zero], ctx.thorough(), scale=ctx.boost)
+    msgs += alg
 
     gen_pairs, chk_pairs = [], []
     all_masks = [m for _, m in masks] + [zero]
@@ -432,6 +938,19 @@ def run(ctx):
         if r is not None:
             ctx.fail("check-exact", {"word": hex_str(w), "mask": hex_str(m)}, r[0], expected=r[1], actual=r[2])
 
+    # structured received words: reference code words of the algebraic classes (never touched generate), and words
+    # that only look like them (bare mask / constant / message octets in the FEC field, permuted parity, patterns,
+    # minimum-weight code words with octets cleared)
+    sw = [(d + xor_b(ref_parity(d), m), m, origin.replace("alg:", "codeword:")) for d, m, origin in alg]
+    sw += structured_words(rng, all_masks, ctx.budget(600, 6000))
+    for w, m, lab in sw:
+        k = chk_line(w, m)
+        ctx.case(("word", w, m))
+        ctx.count(f"word:{lab}" if not lab.startswith("codeword:") else "word:algebraic-reference-codeword")
+        r = eval_word(R, w, m)
+        if r is not None:
+            ctx.fail("check-exact", {"word": hex_str(w), "mask": hex_str(m), "class": lab}, r[0], expected=r[1], actual=r[2])
+
     # ------------------------------------------------------------------ linearity of the encoder
     for _ in range(ctx.budget(200, 3000)):
         a = bytes(rng.randrange(256) for _ in range(9))
@@ -445,6 +964,31 @@ def run(ctx):
         ctx.case(("scale", a, s))
         if r is not None:
             ctx.fail("homogeneity", {"a": hex_str(a), "s": s}, r[0], expected=r[1], actual=r[2])
+
+    # ------------------------------------------------------------------ histories, argument types, aliasing
+    # generate / check are functions of the octets they are given: the answer may not depend on earlier calls, on the
+    # Python type of the octet string (bytes / bytearray; list, tuple, memoryview masks where accepted), on the call
+    # style, nor on what the caller later does with a returned word or with its own argument buffers.
+    pool = [d for d, _, _ in alg]
+    scripts = make_scripts(rng, all_masks, ctx.budget(240, 3000), pool)
+    scripts += [("many-held", long_script(rng, all_masks, 160 if not ctx.thorough() else 1500))]
+    if ctx.thorough():
+        scripts += [("many-held", long_script(rng, all_masks, 300)) for _ in range(4)]
+    nfail = 0
+    for lab, steps in scripts:
+        res = run_script(R, steps)
+        ctx.case(("history", lab, repr(steps)), sample={"op": "history", "template": lab, "steps": steps} if lab == "mutate-result" and not nfail and ctx.hist.get("history:mutate-result", 0) == 0 else None)
+        ctx.count(f"history:{lab}")
+        ctx.count("history:calls", res["calls"])
+        if res["skipped"]:
+            ctx.count("history:calls-with-a-type-the-code-does-not-accept(no verdict)", res["skipped"])
+        for comp, ln, out in res["pairs"]:
+            (gen_pairs if comp == "generate" else chk_pairs).append((ln, out))
+        if res["fail"] is not None:
+            nfail += 1
+            if nfail <= 10:
+                f = res["fail"]
+                ctx.fail("history", {"template": lab, "steps": steps}, f[0], expected=f[1], actual=f[2])
 
     # ------------------------------------------------------------------ malformed lengths
     # Outside the property (it speaks of 9-octet messages, 3-octet masks, 12-octet words).  The model mirrors the
@@ -534,6 +1078,13 @@ def replay(obj):
         r = eval_linear(R, bytes.fromhex(inp["a"]), bytes.fromhex(inp["b"]))
     elif kind == "homogeneity":
         r = eval_scale(R, bytes.fromhex(inp["a"]), int(inp["s"]))
+    elif kind == "history":
+        res = run_script(R, inp["steps"])
+        for i, st in enumerate(inp["steps"]):
+            print(f"  step {i}: {st}")
+        print(f"{res['calls']} calls made, {res['skipped']} skipped (argument type not accepted)")
+        lines = [ln for _, ln, _ in res["pairs"]][-3:]
+        r = res["fail"]
     else:
         print("unknown failure kind; nothing to replay")
         return 0
